@@ -304,6 +304,13 @@ def check(ctx):
                     ctx.check(mm.group(2) == "T", "C03.c", "%s:payload-type-is-own-T" % rname, "%s:%d" % (adt["file"], adt["line"]),
                               "%s queries %s<T>" % (rname, mm.group(1)), "%s queries %s<%s>, not its own T" % (rname, mm.group(1), mm.group(2)))
     ctx.floor("C03.c", n_methods, 10, "reader methods that touch a tracker accessor")
+
+    # ---- C03.f the flags are cleared before anything the run queued can run (shared with C04.a / C04.b) ----
+    # ('every reader for another kind reports nothing' and 'a manual run sees nothing' for commands queued by a reacting run)
+    import c04
+    import core as _core
+    nf = _core.adopt(ctx, c04, lambda o: o["rule"] in ("C04.a", "C04.b"), "C03.f")
+    ctx.floor("C03.f", nf, 12, "shared cleanup-ordering obligations (C04.a/b)")
     ctx.sample({"trackers": sorted(t.split("::")[-1] for t in trackers), "readers": sorted(r.split("::")[-1] for r in readers)})
 
 
